@@ -13,16 +13,19 @@ def Admitted (cfg : Config) (q : Req) : Prop :=
 /-- thread `th` finished by storing its origin response -/
 def StoredBy (cfg : Config) (th : Thread) : Prop :=
   th.pc = .done ∧ th.out = some (passThrough .miss th.req.resp) ∧ th.ran = true ∧ Admitted cfg th.req ∧
-  cacheable th.req.resp.status = true ∧ th.req.skip = false
+  cacheable th.req.resp.status = true ∧ th.req.skip = false ∧ th.req.err = false
 
 /-- what a finished thread's output is -/
 def DoneOK (cfg : Config) (threads : List Thread) (th : Thread) (o : Out) : Prop :=
   (o.xcache = .hit ∧ th.ran = false ∧ Admitted cfg th.req ∧ th.req.inv = false ∧
      hasDirective th.req.cc Facts.noCache = false ∧
-     ∃ (u : Nat) (thu : Thread) (idx : Nat), threads[u]? = some thu ∧ StoredBy cfg thu ∧ mkKey thu.req = mkKey th.req ∧
-        o = replay cfg (mkItem cfg thu.req thu.ts idx) th.ts ∧ th.ts < thu.ts + expSecs cfg thu.req)
+     (cfg.ext = true → (faultAt th.req.f1 0).noEntry = false ∧ (faultAt th.req.f1 1).fails = false) ∧
+     ∃ (u : Nat) (thu : Thread) (idx : Nat) (body : Bytes), threads[u]? = some thu ∧ StoredBy cfg thu ∧
+        mkKey thu.req = mkKey th.req ∧
+        o = replay cfg { mkItem cfg thu.req thu.ts idx with body := body } th.ts ∧ th.ts < thu.ts + expSecs cfg thu.req ∧
+        (th.taint = false → body = thu.req.resp.body))
   ∨ (o = passThrough .miss th.req.resp ∧ th.ran = true ∧ Admitted cfg th.req ∧ cacheable th.req.resp.status = true ∧
-       th.req.skip = false)
+       th.req.skip = false ∧ th.req.err = false)
   ∨ (o = passThrough .unreachable th.req.resp ∧ th.ran = true ∧ cfg.disabled = false ∧
        hasDirective th.req.cc Facts.noStore = false)
   ∨ (o = passThrough .absent th.req.resp ∧ th.ran = true ∧
@@ -36,8 +39,9 @@ def ThOK (cfg : Config) (threads : List Thread) (th : Thread) : Prop :=
       ((x = .absent ∧ (cfg.disabled = true ∨ hasDirective th.req.cc Facts.noStore = true)) ∨
        (x = .unreachable ∧ cfg.disabled = false ∧ hasDirective th.req.cc Facts.noStore = false))
   | .wantLock1 | .sec1 | .next => th.out = none ∧ th.ran = false ∧ Admitted cfg th.req
-  | .afterNext => th.out = none ∧ th.ran = true ∧ Admitted cfg th.req
-  | .wantLock2 | .sec2 => th.out = none ∧ th.ran = true ∧ Admitted cfg th.req ∧ cacheable th.req.resp.status = true
+  | .afterNext => th.out = none ∧ th.ran = true ∧ Admitted cfg th.req ∧ th.req.err = false
+  | .wantLock2 | .sec2 => th.out = none ∧ th.ran = true ∧ Admitted cfg th.req ∧ cacheable th.req.resp.status = true ∧
+      th.req.err = false
   | .done => ∃ o, th.out = some o ∧ DoneOK cfg threads th o
   | .panicked => False
 
@@ -53,6 +57,7 @@ def SlotOrigin (cfg : Config) (g : G) : Prop :=
       sl.item = mkItem cfg thu.req thu.ts idx
 
 structure Inv (cfg : Config) (g : G) : Prop where
+  clock : 1 ≤ g.ts
   sh : ShInv cfg g.sh
   mux : MuxOK g
   th : ∀ (t : Nat) (th : Thread), g.threads[t]? = some th → ThOK cfg g.threads th
@@ -64,8 +69,8 @@ def KeepsDone (threads threads' : List Thread) : Prop :=
 
 theorem DoneOK_mono {cfg : Config} {threads threads' : List Thread} (hk : KeepsDone threads threads')
     {th : Thread} {o : Out} (h : DoneOK cfg threads th o) : DoneOK cfg threads' th o := by
-  rcases h with ⟨a, b, c, d, e, u, thu, idx, h1, h2, h3⟩ | h | h | h
-  · exact Or.inl ⟨a, b, c, d, e, u, thu, idx, hk u thu h1 h2.1, h2, h3⟩
+  rcases h with ⟨a, b, c, d, e, f, u, thu, idx, body, h1, h2, h3⟩ | h | h | h
+  · exact Or.inl ⟨a, b, c, d, e, f, u, thu, idx, body, hk u thu h1 h2.1, h2, h3⟩
   · exact Or.inr (Or.inl h)
   · exact Or.inr (Or.inr (Or.inl h))
   · exact Or.inr (Or.inr (Or.inr h))
@@ -98,7 +103,7 @@ theorem inv_local {cfg : Config} {g : G} (hi : Inv cfg g) {t : Nat} {th th' : Th
     (hok : ThOK cfg (g.threads.set t th') th') :
     Inv cfg (g.setThread t th') := by
   have hk := keepsDone_set (th' := th') ht hnd
-  refine ⟨hi.sh, ⟨?_, ?_⟩, ?_, ?_⟩
+  refine ⟨hi.clock, hi.sh, ⟨?_, ?_⟩, ?_, ?_⟩
   · intro u thu hu hs
     simp only [G.setThread] at hu ⊢
     by_cases hut : t = u
@@ -126,7 +131,7 @@ theorem inv_lock {cfg : Config} {g : G} (hi : Inv cfg g) {t : Nat} {th th' : Thr
     (hok : ThOK cfg (g.threads.set t th') th') :
     Inv cfg ({ g with mux := some t }.setThread t th') := by
   have hk := keepsDone_set (th' := th') ht hnd
-  refine ⟨hi.sh, ⟨?_, ?_⟩, ?_, ?_⟩
+  refine ⟨hi.clock, hi.sh, ⟨?_, ?_⟩, ?_, ?_⟩
   · intro u thu hu hs
     simp only [G.setThread] at hu ⊢
     by_cases hut : t = u
@@ -161,7 +166,7 @@ theorem inv_unlock {cfg : Config} {g : G} (hi : Inv cfg g) {t : Nat} {th th' : T
   have hnd : th.pc ≠ .done := by rcases hin with h | h <;> rw [h] <;> simp
   have hk := keepsDone_set (th' := th') ht hnd
   have hmt : g.mux = some t := hi.mux.1 t th ht hin
-  refine ⟨hsh, ⟨?_, ?_⟩, ?_, horigin⟩
+  refine ⟨hi.clock, hsh, ⟨?_, ?_⟩, ?_, horigin⟩
   · intro u thu hu hs
     simp only [G.setThread] at hu ⊢
     by_cases hut : t = u
@@ -245,21 +250,30 @@ theorem step_inv {cfg : Config} (hmb : cfg.maxBytes < 2 ^ 63) {g g' : G} (hi : I
       rw [hpc] at hs hth
       simp only at hs hth
       have hnd : th.pc ≠ .done := by rw [hpc]; simp
-      rcases sec1_ok hmb hi.sh g.ts g.uts th.req (mkKey th.req) with ⟨o, ho⟩ | ⟨sh', hp, hsh'⟩
+      rcases sec1_ok hmb hi.sh g.ts g.uts th.req (mkKey th.req) with ⟨o, ho⟩ | ⟨sh', hp, hsh', hsub⟩
       · rw [ho] at hs; cases hs
-        rcases sec1_hit ho with ⟨sl, hl, _, hrep, hinv, hnc, hfresh⟩
+        rcases sec1_hit hi.clock ho with ⟨sl, hl, hx, hrep, hinv, hfresh, hnc, hflt⟩
         rcases hi.origin _ sl hl with ⟨u, thu, idx, hu1, hu2, hu3, hu4⟩
         apply inv_unlock hi ht (Or.inl hpc) (by simp) hi.sh
         · simp only [ThOK]
-          refine ⟨o, rfl, Or.inl ⟨?_, hth.2.1, hth.2.2, hinv, hnc, u, thu, idx, keepsDone_set ht hnd u thu hu1 hu2.1, hu2, hu3, ?_, ?_⟩⟩
+          refine ⟨o, rfl, Or.inl ⟨?_, hth.2.1, hth.2.2, hinv, hnc, hflt, u, thu, idx,
+            hitBody cfg g.sh g.uts (mkKey th.req) sl.item, keepsDone_set ht hnd u thu hu1 hu2.1, hu2, hu3, ?_, ?_, ?_⟩⟩
           · rw [hrep]; rfl
           · rw [hrep, hu4]
           · rw [hu4] at hfresh; exact hfresh
+          · intro htaint
+            have hnd' : mkKey th.req ∉ g.sh.dirty := by
+              intro hm
+              have : g.sh.dirty.contains (mkKey th.req) = true := List.contains_iff_mem.mpr hm
+              simp only at htaint
+              rw [this] at htaint; cases htaint
+            have hsync := (hi.sh.clean _ hnd' (fun h => h)).2.2
+            rw [hitBody_sync hsync hl hx, hu4]; rfl
         · exact origin_sub hi ht hnd (StoreSub.refl _)
       · rw [hp] at hs; cases hs
         apply inv_unlock hi ht (Or.inl hpc) (by simp) hsh'
         · simp [ThOK, hth.1, hth.2.1, hth.2.2]
-        · exact origin_sub hi ht hnd (sec1_sub hp)
+        · exact origin_sub hi ht hnd hsub
     | next =>
       rw [hpc] at hs hth
       simp only at hs hth
@@ -271,7 +285,8 @@ theorem step_inv {cfg : Config} (hmb : cfg.maxBytes < 2 ^ 63) {g g' : G} (hi : I
         simp only [ThOK]
         exact ⟨_, rfl, Or.inr (Or.inr (Or.inr ⟨rfl, rfl, Or.inr (Or.inr ⟨he, hth.2.2⟩)⟩))⟩
       · rw [if_neg he] at hs; cases hs
-        exact inv_local hi ht hnd hns (by simp) (by simp [ThOK, hth.1, hth.2.2])
+        have he' : th.req.err = false := by simpa using he
+        exact inv_local hi ht hnd hns (by simp) (by simp [ThOK, hth.1, hth.2.2, he'])
     | afterNext =>
       rw [hpc] at hs hth
       simp only at hs hth
@@ -281,10 +296,10 @@ theorem step_inv {cfg : Config} (hmb : cfg.maxBytes < 2 ^ 63) {g g' : G} (hi : I
       · rw [if_pos hc] at hs; cases hs
         apply inv_local hi ht hnd hns (by simp)
         simp only [ThOK]
-        exact ⟨_, rfl, Or.inr (Or.inr (Or.inl ⟨rfl, hth.2.1, hth.2.2.1, hth.2.2.2.1⟩))⟩
+        exact ⟨_, rfl, Or.inr (Or.inr (Or.inl ⟨rfl, hth.2.1, hth.2.2.1.1, hth.2.2.1.2.1⟩))⟩
       · rw [if_neg hc] at hs; cases hs
         have hc' : cacheable th.req.resp.status = true := by simpa using hc
-        exact inv_local hi ht hnd hns (by simp) (by simp [ThOK, hth.1, hth.2.1, hth.2.2, hc'])
+        exact inv_local hi ht hnd hns (by simp) (by simp [ThOK, hth.1, hth.2.1, hth.2.2.1, hth.2.2.2, hc'])
     | wantLock2 =>
       rw [hpc] at hs hth
       simp only at hs hth
@@ -293,7 +308,7 @@ theorem step_inv {cfg : Config} (hmb : cfg.maxBytes < 2 ^ 63) {g g' : G} (hi : I
       | some _ => rw [hm] at hs; cases hs
       | none =>
         rw [hm] at hs; cases hs
-        exact inv_lock hi ht hnd hm (Or.inr rfl) (by simp [ThOK, hth.1, hth.2.1, hth.2.2.1, hth.2.2.2])
+        exact inv_lock hi ht hnd hm (Or.inr rfl) (by simp [ThOK, hth.1, hth.2.1, hth.2.2.1, hth.2.2.2.1, hth.2.2.2.2])
     | sec2 =>
       rw [hpc] at hs hth
       simp only at hs hth
@@ -312,17 +327,20 @@ theorem step_inv {cfg : Config} (hmb : cfg.maxBytes < 2 ^ 63) {g g' : G} (hi : I
         cases hres with
         | stored _ idx mid hsh' hst hsub hskip =>
           have hstored : StoredBy cfg { th with pc := .done, out := some (passThrough .miss th.req.resp) } :=
-            ⟨rfl, rfl, hth.2.1, hth.2.2.1, hth.2.2.2, hskip⟩
+            ⟨rfl, rfl, hth.2.1, hth.2.2.1, hth.2.2.2.1, hskip, hth.2.2.2.2⟩
           apply inv_unlock hi ht (Or.inr hpc) (by simp) hsh'
           · simp only [ThOK]
-            exact ⟨_, rfl, Or.inr (Or.inl ⟨rfl, hth.2.1, hth.2.2.1, hth.2.2.2, hskip⟩)⟩
+            exact ⟨_, rfl, Or.inr (Or.inl ⟨rfl, hth.2.1, hth.2.2.1, hth.2.2.2.1, hskip, hth.2.2.2.2⟩)⟩
           · intro k sl hl
-            rw [hst, lookup_set] at hl
-            by_cases hk : k = mkKey th.req
-            · simp only [hk, if_true] at hl
-              cases hl
-              exact ⟨t, _, idx, getElem?_set_self' ht, hstored, hk.symm, rfl⟩
-            · simp only [hk, if_false] at hl
+            rcases hst with hst | hst
+            · rw [hst, lookup_set] at hl
+              by_cases hk : k = mkKey th.req
+              · simp only [hk, if_true] at hl
+                cases hl
+                exact ⟨t, _, idx, getElem?_set_self' ht, hstored, hk.symm, rfl⟩
+              · simp only [hk, if_false] at hl
+                exact origin_sub hi ht hnd hsub k sl hl
+            · rw [hst] at hl
               exact origin_sub hi ht hnd hsub k sl hl
     | done => rw [hpc] at hs; cases hs
     | panicked => rw [hpc] at hs; cases hs
@@ -335,11 +353,11 @@ theorem exec_inv {cfg : Config} (hmb : cfg.maxBytes < 2 ^ 63) {g : G} (hi : Inv 
     cases hs : step cfg g t with
     | none => exact hi
     | some g' => exact step_inv hmb hi hs
-  | tickTs d => exact ⟨hi.sh, hi.mux, hi.th, hi.origin⟩
-  | tickUts d => exact ⟨hi.sh, hi.mux, hi.th, hi.origin⟩
+  | tickTs d => exact ⟨by show 1 ≤ g.ts + d; have := hi.clock; omega, hi.sh, hi.mux, hi.th, hi.origin⟩
+  | tickUts d => exact ⟨hi.clock, hi.sh, hi.mux, hi.th, hi.origin⟩
 
-theorem init_inv (cfg : Config) (ts uts : Nat) (reqs : List Req) : Inv cfg (G.init ts uts reqs) := by
-  refine ⟨ShInv_empty cfg, ⟨?_, ?_⟩, ?_, ?_⟩
+theorem init_inv (cfg : Config) (ts uts : Nat) (reqs : List Req) (hts : 1 ≤ ts) : Inv cfg (G.init ts uts reqs) := by
+  refine ⟨hts, ShInv_empty cfg, ⟨?_, ?_⟩, ?_, ?_⟩
   · intro t th ht hs
     simp only [G.init, List.getElem?_map] at ht
     cases hq : reqs[t]? with
